@@ -152,6 +152,7 @@ def _run_own(ctx, chk):
     chk.floor("layout rows compared (encoder)", n_rows, 162)
     chk.floor("commands", len([s for s in spec if spec[s]["control_field"]]), 31)
     framing(ctx, chk)
+    datetime_layout(ctx, chk)
 
 
 def framing(ctx, chk):
@@ -185,6 +186,9 @@ def framing(ctx, chk):
             src = tr.value(t["args"][0])
             chk.require(src.kind in ("place", "ref") and src.place.l == 1, "C03-c/payload", inst,
                         "framed payload is not the function's argument", site=t.get("sp"), nontrivial=False)
+            chk.require(returns_call_result(b, tr, t), "C03-c/result", inst,
+                        "the function does not hand back the framing call's result as it is (value, remainder): what follows the "
+                        "packet is then not what the framing computed", "result of %s unchanged" % want.rsplit("::", 1)[-1], t.get("sp"))
         if r.get("in_trait") == "zvt_builder::ZvtSerializer" and r.get("name") in ("zvt_serialize", "zvt_deserialize"):
             found += 1
             want = SER if r["name"] == "zvt_serialize" else DESER
@@ -204,6 +208,119 @@ def framing(ctx, chk):
             chk.require(tag == ("none",), "C03-c/tag", inst, "containers must be framed without tag, found %s" % (tag,),
                         "no tag", t.get("sp"))
     chk.floor("framing functions", found, 4)
+
+
+DATETIME_LAYOUT = [(0x1F0E, 4, "date YYYYMMDD"), (0x1F0F, 3, "time HHMMSS")]     # PA00P015 TLV tags 1F0E / 1F0F: fixed-width BCD
+
+
+def datetime_layout(ctx, chk):
+    """The hand-written date/time container (`Encoding<NaiveDateTime> for Default`): the encoder writes tag 1F0E, the
+    length byte 4 and four BCD bytes, then tag 1F0F, the length byte 3 and three BCD bytes - fixed widths, whatever
+    the value (a minimal-length BCD would drop the leading zero bytes of 00:07:09).  Decided on the symbolic
+    concatenation the encoder returns (pathsym), not on its spelling."""
+    import pathsym as ps
+    import rules_c01
+    zb = ctx.crate("zvt_builder")
+    enc, dec = rules_c01.find_encoding_impl([zb, ctx.crate("zvt")], "zvt_builder::encoding::Default", "chrono::naive::datetime::NaiveDateTime")
+    if not chk.require(enc is not None, "C03-a/datetime-layout", "Encoding<NaiveDateTime>", "date/time encoder not found", "", nontrivial=False):
+        return
+    GROW = ("alloc::vec::Vec::<T, A>::append", "alloc::vec::Vec::<T, A>::extend_from_slice", "core::iter::traits::collect::Extend::extend")
+
+    def parts(e, d=0):
+        e = ps.strip(e)
+        if d > 40:
+            return None
+        if e[0] == "call-mut":
+            if e[1] == "alloc::vec::Vec::<T, A>::push" and len(e[2]) == 2:
+                a = parts(e[3], d + 1)
+                return None if a is None else a + [("byte", ps.strip(e[2][1]))]
+            if e[1] in GROW and len(e[2]) >= 2:
+                a, c = parts(e[3], d + 1), parts(e[2][1], d + 1)
+                return None if a is None or c is None else a + c
+            return None
+        if e[0] == "call" and e[1] in ("alloc::vec::Vec::<T>::new", "core::default::Default::default"):
+            return []
+        if e[0] == "call" and e[1].endswith(("::into_iter", "::to_vec", "::into_vec", "::iter", "::as_slice")) and e[2]:
+            return parts(e[2][0], d + 1)
+        if e[0] == "call" and e[1].endswith("::concat") and e[2] and ps.strip(e[2][0])[0] == "agg":
+            out = []
+            for x in ps.strip(e[2][0])[2]:
+                px = parts(x, d + 1)
+                if px is None:
+                    return None
+                out += px
+            return out
+        if e[0] == "agg" and e[1] == "array":
+            return [("byte", ps.strip(x)) for x in e[2]]
+        return [("val", e)]
+
+    def describe(p):
+        k, e = p
+        if k == "byte":
+            return ("len", e[1]) if e[0] == "const" else ("byte?", ps.show(e)[:30])
+        if e[0] == "call" and e[1] == "zvt_builder::encoding::Encoding::encode" and len(e[3]) > 1 and e[3][1] == "zvt_builder::Tag":
+            cs = [x[1] for x in ps.walk(e) if x[0] == "const" and isinstance(x[1], int)]
+            return ("tag", cs[0] if len(cs) == 1 else None)
+        if e[0] == "call" and e[1] == "zvt_builder::ZvtSerializerImpl::serialize_tagged":
+            ga = [str(g) for g in e[3]]
+            fx = [g for g in ga if g.startswith("zvt_builder::length::Fixed<")]
+            bcd = any(g == "zvt_builder::encoding::Bcd" for g in ga)
+            untagged = len(e[2]) == 2 and ps.strip(e[2][1])[0] == "agg" and str(ps.strip(e[2][1])[1]).endswith("Option::None")
+            n = int(fx[0].split("<")[1].rstrip(">")) if fx else None
+            return ("bcd-fixed", n) if (fx and bcd and untagged) else ("value?", ",".join(ga)[:70])
+        return ("?", ps.show(e)[:40])
+    pe = ps.PathEval(enc, zb.adts)
+    rets = [i for i in sorted(enc.reachable(0)) if enc.blocks[i]["term"]["t"] == "return"]
+    want = []
+    for tag, n, _ in DATETIME_LAYOUT:
+        want += [("tag", tag), ("len", n), ("bcd-fixed", n)]
+    n_paths = 0
+    for r in rets:
+        for path in ps.simple_paths(enc, 0, r):
+            n_paths += 1
+            env, _ = pe.run(path)
+            ps_ = parts(ps.norm(env.get(0, ("pre", 0))))
+            got = [describe(p) for p in ps_] if ps_ is not None else None
+            chk.require(got == want, "C03-a/datetime-layout", "Encoding<NaiveDateTime>::encode",
+                        "the date/time container is written as %s; the specification says tag 1F0E, length 4, 4 BCD bytes, tag 1F0F, "
+                        "length 3, 3 BCD bytes (fixed widths)" % (got if got is not None else ps.show(ps.norm(env.get(0, ("pre", 0))))[:120]),
+                        "1F0E 04 <4 BCD> 1F0F 03 <3 BCD>", enc.sp())
+    chk.require(n_paths >= 1, "C03-a/datetime-layout", "Encoding<NaiveDateTime>::encode", "no path to a return", "", enc.sp(), nontrivial=False)
+
+
+def returns_call_result(b, tr, t):
+    """_0 is the destination of call t, or a plain move/copy of it (through single-definition locals)."""
+    d = t["dest"]
+    if d["p"]:
+        return False
+    if d["l"] == 0:
+        return True
+    ok = False
+    for i in sorted(b.reachable(0)):
+        for st in b.blocks[i]["stmts"]:
+            if st["s"] == "assign" and st["p"]["l"] == 0:
+                if st["p"]["p"] or st["rv"]["r"] != "use":
+                    return False
+                v = tr.value(st["rv"]["o"])
+                src_l = v.place.l if v.kind == "place" and not v.place.p else None
+                if src_l is None and op_place(st["rv"]["o"]) is not None and not op_place(st["rv"]["o"])["p"]:
+                    src_l = op_place(st["rv"]["o"])["l"]
+                # follow single-definition copies back to the call's destination
+                seen = 0
+                while src_l is not None and src_l != d["l"] and seen < 6:
+                    seen += 1
+                    sd = tr.single_def(src_l)
+                    if sd is None or sd[2] != "assign" or sd[3]["rv"]["r"] != "use":
+                        break
+                    p2 = op_place(sd[3]["rv"]["o"])
+                    src_l = p2["l"] if p2 is not None and not p2["p"] else None
+                if src_l != d["l"]:
+                    return False
+                ok = True
+        tt = b.blocks[i]["term"]
+        if tt["t"] == "call" and tt is not t and tt["dest"]["l"] == 0:
+            return False
+    return ok
 
 
 def tag_is_class_instr(b, tr, operand):
